@@ -27,7 +27,7 @@ def shards(tier):
 
 
 def floors(tier):
-    return {"helper_n": 65536, "helper_triples": 9261, "api_ring_Q": 4096, "api_branch_Q": 4096, "api_encoder_ring": 150,
+    return {"helper_n": 65536, "helper_triples": 9261, "api_ring_Q": 4096, "api_branch_Q": 4096, "api_truncated_index": 3000, "api_encoder_ring": 150,
             "api_encoder_branch": 150}
 
 
@@ -113,6 +113,43 @@ def run(ctx):
         ctx.count("api_ring_Q")
         ctx.count("api_branch_Q")
         ctx.case(("Q", Q), True, sample={"Q": Q, "ring_string": "[C]*%d + [Ring%d] + %s" % (Q + 2, L, "".join(digits_for(Q, L)))} if Q in (17, 300) else None)
+    # ---- API level, decoder: index symbols missing at the end of the string (or of a fragment) count as digit 0,
+    # whatever was decoded before (the same leading digits are read complete and truncated, alternately)
+    rng = ctx.rng
+    lead = INDEX_SYMBOLS[1:]
+    for it in range(250 if quick else 6000):
+        L = 2 if rng.random() < 0.88 else 3
+        have = rng.randint(0, L - 1)
+        ds = [rng.choice(lead) for _ in range(have)]
+        q_trunc = index_value(ds + [None] * (L - have))
+        q_full = index_value(ds) if ds else 0
+        n = min(4200, max(q_trunc, q_full) + rng.choice([2, 3, 8]))
+        for variant, q, syms, Lx in (("complete", q_full, ds, max(1, have)), ("truncated", q_trunc, ds, L)):
+            if variant == "complete" and not ds:
+                continue
+            x = "[C]" * n + "[Ring%d]" % Lx + "".join(syms)
+            if rng.random() < 0.3:
+                x = x + ".[O]"          # the end of a fragment, not of the string
+            d = call_guard(lambda: sf.decoder(x), expected=(sf.DecoderError,))
+            ok = False
+            if d[0] == "ok":
+                try:
+                    m = read_smiles(d[1])
+                    ring = [k for k, kind in m.bond_kind.items() if kind == "ring"]
+                    tgt = max(0, (n - 1) - (q + 1))
+                    if tgt == n - 2:
+                        ok = m.bonds.get((n - 2, n - 1)) == 2 and not ring
+                    else:
+                        ok = ring == [(tgt, n - 1)]
+                except SmilesSyntaxError:
+                    ok = False
+            ctx.count("api_truncated_index")
+            ctx.case(("trunc", variant, tuple(syms), Lx, n), True)
+            if not ok:
+                ctx.finding("decoder-missing-index-symbols-not-zero", {"selfies": x if len(x) < 300 else None, "n_atoms": n,
+                                                                       "ring_symbol_len": Lx, "digits": syms, "variant": variant,
+                                                                       "expected_Q": q}, repr(d)[:200])
+
     # ---- API level, encoder: emitted digits are the shortest digits of Q
     sizes = list(range(3, 40)) + [255, 256, 257, 258, 259, 1000, 4095, 4096, 4097] + list(range(40, 4097, 37))
     for n in sizes[sh::ns]:
